@@ -387,6 +387,14 @@ class Machine:
         m = re.match(r"^(-?\d+)$", c)
         if m:
             return int(c)
+        m = re.match(r"^(?:std::|core::)?(i8|i16|i32|i64|i128|isize|u8|u16|u32|u64|u128|usize)::(MIN|MAX)$", c)
+        if m:
+            lo, hi = INT_RANGES[m.group(1)]
+            return lo if m.group(2) == "MIN" else hi
+        m = re.match(r"^(?:std::|core::)?f64::(EPSILON|MAX|MIN|MIN_POSITIVE)$", c)
+        if m:
+            import sys as _s
+            return F(Fraction({"EPSILON": _s.float_info.epsilon, "MAX": _s.float_info.max, "MIN": -_s.float_info.max, "MIN_POSITIVE": _s.float_info.min}[m.group(1)]))
         # named constant / static: evaluate its MIR body, or a model
         v = self.models.named_const(self, fr, c)
         if v is not None:
@@ -586,6 +594,10 @@ class Machine:
         for val, bb in term.targets:
             if val == v:
                 return bb
+        if isinstance(v, int) and v < 0:      # discriminants / negative constants are printed as unsigned bit patterns
+            for val, bb in term.targets:
+                if val in (v & 0xFF, v & 0xFFFF, v & 0xFFFFFFFF, v & 0xFFFFFFFFFFFFFFFF, v & ((1 << 128) - 1)):
+                    return bb
         if term.otherwise is None:
             raise Unsupported("switch without target")
         return term.otherwise
@@ -941,6 +953,9 @@ def to_params(t, gens):
 
 def const_type(c, env):
     m = re.match(r"^-?\d+_(\w+)$", c)
+    if m:
+        return parse_type(m.group(1))
+    m = re.match(r"^(?:std::|core::)?(i8|i16|i32|i64|i128|isize|u8|u16|u32|u64|u128|usize|f64)::[A-Z_]+$", c)
     if m:
         return parse_type(m.group(1))
     if re.match(r"^-?[0-9.]+(?:[eE][-+]?\d+)?f64$", c) or c in ("inff64",):
